@@ -44,7 +44,7 @@ func vfGenReq(t *rapid.T, kinds []string) vfReq {
 	case "READ":
 		r.H = rapid.SampledFrom([]int{0, 0, 0, 1, 2, 2, 3, -1, 4, 5, 6, 9}).Draw(t, "h")
 		r.Off = rapid.SampledFrom([]int{0, 0, 1, 100, 299, 300, 301, 5000}).Draw(t, "off")
-		r.Len = rapid.SampledFrom([]int{0, 1, 10, 300, 4096, 32768, 32769, 100000}).Draw(t, "len")
+		r.Len = rapid.SampledFrom([]int{0, 1, 10, 300, 4096, 32768, 32769, 100000, 262144, 262145, 1 << 20, 1<<32 - 1}).Draw(t, "len")
 	case "WRITE":
 		r.H = rapid.SampledFrom([]int{1, 1, 1, 2, 2, 0, 3, -1, 4, 5, 6, 9}).Draw(t, "h")
 		r.Off = rapid.SampledFrom([]int{0, 0, 1, 100, 300, 1000}).Draw(t, "off")
